@@ -18,6 +18,7 @@ pub mod c13;
 pub mod c14;
 pub mod c15;
 pub mod c16;
+pub mod c17;
 pub mod c18;
 pub mod c18a;
 
@@ -39,6 +40,7 @@ pub fn run(cfg: &Cfg) -> Option<Report> {
         "C14" => c14::run(cfg),
         "C15" => c15::run(cfg),
         "C16" => c16::run(cfg),
+        "C17" => c17::run(cfg),
         "C18" => c18::run(cfg),
         _ => return None,
     })
@@ -62,6 +64,7 @@ pub fn replay(cfg: &Cfg, case: &Value) -> Option<Report> {
         "C14" => c14::replay(cfg, case),
         "C15" => c15::replay(cfg, case),
         "C16" => c16::replay(cfg, case),
+        "C17" => c17::replay(cfg, case),
         "C18" => c18::replay(cfg, case),
         _ => return None,
     })
